@@ -224,18 +224,24 @@ fn scenario(seed: u64, variant: &str, trigger: &str, rep: &Report) -> Result<(),
             if trigger == "sighup" {
                 cell.pg().signal(libc::SIGHUP);
             }
-            // wait for the reload to finish: hook event for valid files, error log line for invalid ones
-            let deadline = now_ns() + 5_000_000_000;
+            // wait for the reload to finish: a `reload.stored` hook event emitted AFTER the new file
+            // was in place (an autoreload tick that read the old file may still be finishing), then
+            // the `reload.end` that follows it; for invalid files the error log line
+            let log_from = cell.pg().log_len().saturating_sub(1);
+            let deadline = now_ns() + 8_000_000_000;
             loop {
                 let evs = cell.pg().events();
-                if evs.iter().skip(ev0).any(|e| e.1 == "reload.end") {
-                    break;
+                let stored = evs.iter().find(|e| e.1 == "reload.stored" && e.0 > t_start + 1_000_000).map(|e| e.0);
+                if let Some(ts) = stored {
+                    if evs.iter().any(|e| e.1 == "reload.end" && e.0 >= ts) {
+                        break;
+                    }
                 }
-                if invalid && cell.pg().log_contains("Config reload error") {
+                if invalid && cell.pg().wait_log("Config reload error", log_from, 1).is_some() {
                     break;
                 }
                 if now_ns() > deadline {
-                    return Err(format!("reload ({}, {}) never finished", trigger, variant));
+                    return Err(format!("reload ({}, {}) never finished; events {:?}; log tail: {}", trigger, variant, cell.pg().events().iter().map(|e| e.1.clone()).filter(|k| k.starts_with("reload")).collect::<Vec<_>>(), cell.pg().log_tail(4)));
                 }
                 sleep_ms(5);
             }
